@@ -240,6 +240,15 @@ def run(tier, replay=None):
             distinct.add(json.dumps(c["ops"]))
             for op in c["ops"]:
                 stats["ops"][op["t"]] = stats["ops"].get(op["t"], 0) + 1
+            if c.get("ids_probe"):
+                # correlation ids: the first 70000 drawn from a fresh client are the model's (Model/ClientEngine.next_id iterated),
+                # pairwise distinct and never 0 (C16_ids_distinct speaks about the model's sequence)
+                n = ob["ops"][0]["note"]
+                stats["id_probes"] = stats.get("id_probes", 0) + 1
+                if n["zero"] or n["distinct"] != n["count"]:
+                    violations.append((f"of {n['count']} correlation ids drawn in a row only {n['distinct']} are distinct (zero drawn: {n['zero']}): two requests in flight can share an id", c))
+                terms.append("(N.iter %d next_id %d =? %d)" % (n["count"] - 1, n["first"], n["last"]))
+                continue
             if c.get("nomodel"):
                 stats["stalled_writer_probes"] = stats.get("stalled_writer_probes", 0) + 1
                 for what, t in final_window_monitor(c, ob):
@@ -278,6 +287,7 @@ def run(tier, replay=None):
     else:
         cases = [dict(gen_case(r, 0, leak_probe=True), probe=True) for _ in range(6)]
         cases += [stalled_writer_case(r) for _ in range(3 if thorough else 1)]
+        cases += [{"max_inflight": 4, "timeout_ms": 300, "ops": [{"t": "ids", "count": 70000}], "ids_probe": True}]
         cases += [gen_case(r, r.randint(6, 40)) for _ in range(600 if thorough else 80)]
         search(cases, "q")
         if (broken or disagreements) and not violations:
